@@ -2000,6 +2000,17 @@ def unroll_const_loops(prog, cls, fn, module=None, max_rows=60, literal_iter=Fal
                     isinstance(node.args[1], ast.Constant) and isinstance(node.args[1].value, str) and node.args[1].value.isidentifier() and \
                     isinstance(node.args[2], ast.Constant) and node.args[2].value is None:
                 return ast.copy_location(ast.Attribute(value=node.args[0], attr=node.args[1].value, ctx=ast.Load()), node)
+            # operator.methodcaller('<m>', a...)(x) is x.<m>(a...); operator.attrgetter('<a>')(x) is x.<a>
+            f = node.func
+            if isinstance(f, ast.Call) and len(node.args) == 1 and not node.keywords and f.args and \
+                    isinstance(f.args[0], ast.Constant) and isinstance(f.args[0].value, str) and f.args[0].value.isidentifier():
+                fname = f.func.id if isinstance(f.func, ast.Name) else f.func.attr if isinstance(f.func, ast.Attribute) and \
+                    isinstance(f.func.value, ast.Name) and f.func.value.id == 'operator' else None
+                if fname == 'methodcaller':
+                    return ast.copy_location(ast.Call(func=ast.Attribute(value=node.args[0], attr=f.args[0].value, ctx=ast.Load()),
+                                                      args=list(f.args[1:]), keywords=list(f.keywords)), node)
+                if fname == 'attrgetter' and len(f.args) == 1 and not f.keywords:
+                    return ast.copy_location(ast.Attribute(value=node.args[0], attr=f.args[0].value, ctx=ast.Load()), node)
             return node
     _G3().visit(new)
     ast.fix_missing_locations(new)
